@@ -192,76 +192,19 @@ def create_dummy_in_mem_geff(
     )
     actual_num_edges = min(num_edges, max_possible_edges)
 
-    # Create edges ensuring we don't create duplicates
-    edges_: list[list[Any]] = []
-    edge_count = 0
-
-    # For undirected graphs, we need to be more careful about duplicates
-    if not directed:
-        # Create a simple chain first, then add cross edges
-        for i in range(min(actual_num_edges, num_nodes - 1)):
-            source_idx = i
-            target_idx = i + 1
-            edges_.append([int(source_idx), int(target_idx)])
-            edge_count += 1
-
-        # Add remaining edges as cross connections
-        remaining_edges = actual_num_edges - edge_count
-        for i in range(remaining_edges):
-            source_idx = i % (num_nodes - 2)
-            target_idx = (i + 2) % (num_nodes - 1) + 1
-            if source_idx != target_idx:
-                edges_.append([int(source_idx), int(target_idx)])
-                edge_count += 1
-    else:
-        # For directed graphs, we can create more edges efficiently
-        edges_ = []
-        edge_count = 0
-        created_edges = set()  # Track created edges to avoid duplicates
-
-        # First create a chain of edges
-        for i in range(min(actual_num_edges, num_nodes - 1)):
-            source_idx = i
-            target_idx = i + 1
-            edge_tuple = (int(source_idx), int(target_idx))
-            if edge_tuple not in created_edges:
-                edges_.append([int(source_idx), int(target_idx)])
-                created_edges.add(edge_tuple)
-                edge_count += 1
-
-        # Add remaining edges using different patterns
-        remaining_edges = actual_num_edges - edge_count
-        if remaining_edges > 0:
-            # Create edges with different offsets
-            for i in range(remaining_edges * 2):  # Try more iterations to find unique edges
-                source_idx = i % num_nodes
-                target_idx = (i + 2) % num_nodes  # Skip one node
-                if source_idx != target_idx:
-                    edge_tuple = (int(source_idx), int(target_idx))
-                    if edge_tuple not in created_edges:
-                        edges_.append([int(source_idx), int(target_idx)])
-                        created_edges.add(edge_tuple)
-                        edge_count += 1
-
-                        # Stop if we've reached the target
-                        if edge_count >= actual_num_edges:
-                            break
-
-            # If we still need more edges, use another pattern
-            if edge_count < actual_num_edges:
-                for i in range(actual_num_edges * 2):  # Try more iterations to find unique edges
-                    source_idx = i % num_nodes
-                    target_idx = (i + 3) % num_nodes  # Skip two nodes
-                    if source_idx != target_idx:
-                        edge_tuple = (int(source_idx), int(target_idx))
-                        if edge_tuple not in created_edges:
-                            edges_.append([int(source_idx), int(target_idx)])
-                            created_edges.add(edge_tuple)
-                            edge_count += 1
-
-                            # Stop if we've reached the target
-                            if edge_count >= actual_num_edges:
-                                break
+    # Enumerate the candidate pairs by increasing offset: (i, i + offset) for
+    # offset = 1 ... num_nodes - 1. The chain 0-1-2-... therefore comes first, followed by
+    # the cross connections, and no pair (ordered, or unordered for undirected graphs) is
+    # ever produced twice. Keep the first ``actual_num_edges`` of them.
+    edges_: list[list[int]] = []
+    for offset in range(1, num_nodes):
+        for i in range(min(num_nodes - offset, actual_num_edges - len(edges_))):
+            edges_.append([i, i + offset])
+    if directed:
+        # All forward pairs are used up: continue with the reversed pairs in the same order
+        for offset in range(1, num_nodes):
+            for i in range(min(num_nodes - offset, actual_num_edges - len(edges_))):
+                edges_.append([i + offset, i])
 
     edges = np.array(edges_, dtype=node_id_dtype)
     if edges.shape[0] == 0:
